@@ -65,7 +65,7 @@ def run_job(j):
     d_in, cn_in, cv_in, at_in = enc_identity(raster)
     case = {"H": H, "W": W, "n": j["n"], "vals": j["vals"], "idx": j.get("idx", -1), "base": j.get("base", []),
             "steps": int(j.get("steps", 1)), "dims_in": d_in, "cnames_in": cn_in, "cvals_in": cv_in,
-            "attrs_in": at_in, "tag": j.get("tag", ""), "dtype": dtype}
+            "attrs_in": at_in, "tag": j.get("tag", ""), "dtype": dtype, "job": j}
     try:
         kw = {"neighborhood": j["n"]}
         if j.get("name"):
